@@ -67,13 +67,18 @@ class Check(PropertyCheck):
                   "and loadable) with the three counterexample theorems for the recorded defects; https_records.py and "
                   "HTTPSRecord.to_json/from_json transcribed (Model/C50_Https.lean): priority_roundtrip (all 65536 SvcPriority values), "
                   "params_roundtrip (any order, unknown keys), svc_key_roundtrip, https_json_roundtrip (values via C51's theorem), "
-                  "https_reencode_exact: every HTTPS rdata the decoder accepts is re-encoded byte for byte, the name codec being the only parameter. The property sentence is checked "
+                  "https_reencode_exact: every HTTPS rdata the decoder accepts is re-encoded byte for byte, the name codec being the only parameter; "
+                  "the TXT, NS/CNAME/PTR and A codecs are transcriptions (Model/C50_Codecs.lean over C35's UTF-8 codec, C25's name codec, C22's "
+                  "parseV4): utf8_dec_enc, name_dec_enc (for every Idna, no law), ip4_dec_enc, ip4_rejects_marker, transcribed_codec_laws(_A) and "
+                  "dns_view_roundtrip_transcribed(_A): the guarded DNS-view round trip with YAML, Python's idna codec for ACE labels (no law needed) "
+                  "and the AAAA/HTTPS part as the only parameters. The property sentence is checked "
                   "directly as an oracle: every registered view x random and structured bodies x message kinds: no exception, "
                   "clean text; DNS: reencode_message(prettify_message(m)) decoded by mitmproxy.dns equals the original.")
     level_note = ("partial: the DNS round trip is proved only under the guard (reserved = 0, every NS/CNAME/PTR/TXT rdata decodable, "
                   "no U+0085 in the YAML, YAML load o dump identity) — the excluded classes are genuine defects recorded as F-C50a/b/c/d. Assumed (parameters "
-                  "with laws, validated by the tie, not proved): ruamel YAML dump/load, the IPv4/IPv6/IDNA/UTF-8 codecs "
-                  "are partial inverses (the HTTPS-record codec is no longer assumed: transcribed and proved up to the domain-name codec, "
+                  "with laws, validated by the tie, not proved): ruamel YAML dump/load and the IPv6 text codec (str(IPv6Address) / IPv6Address(text)) "
+                  "are partial inverses; the UTF-8 (TXT), domain-name (NS/CNAME/PTR, Python's idna codec for ACE labels left as a law-free parameter) "
+                  "and IPv4 (A) codecs are no longer assumed: transcribed, proved and tied by the driver ops utf8/utf8e/name/ip4/ip4e (the HTTPS-record codec is no longer assumed: transcribed and proved up to the domain-name codec, "
                   "tied by the `https` driver op on structured, mutated and truncated rdata with the ASCII non-ACE name codec); Rust and Python view bodies are black boxes (arbitrary functions in the theorem; their "
                   "exceptions are modelled as the `raised` input). Decoding for the oracle uses mitmproxy.dns itself; inputs that "
                   "mitmproxy.dns does not reproduce by pack/unpack alone (C25/C26 territory) are skipped.")
@@ -87,7 +92,7 @@ class Check(PropertyCheck):
             "re-used after first occurring before and after byte offset 16384). "
             "distinct = distinct case; non-trivial = body non-empty.")
     budget = {"quick": 9000, "thorough": 150000}
-    time_budget = {"quick": 22, "thorough": 600}
+    time_budget = {"quick": 14, "thorough": 600}
     fingerprints = ["mitmproxy.contentviews:prettify_message", "mitmproxy.contentviews:reencode_message",
                     "mitmproxy.contentviews._view_dns:DNSContentview", "mitmproxy.contentviews._registry:ContentviewRegistry.get_view",
                     "mitmproxy.contentviews._utils:get_data", "mitmproxy.contentviews._utils:yaml_dumps",
@@ -99,7 +104,9 @@ class Check(PropertyCheck):
                     "mitmproxy.net.dns.https_records:unpack", "mitmproxy.net.dns.https_records:_unpack_params",
                     "mitmproxy.net.dns.https_records:pack", "mitmproxy.net.dns.https_records:_pack_params",
                     "mitmproxy.net.dns.https_records:HTTPSRecord.to_json", "mitmproxy.net.dns.https_records:HTTPSRecord.from_json",
-                    "mitmproxy.net.dns.https_records:SVCParamKeys"]
+                    "mitmproxy.net.dns.https_records:SVCParamKeys",
+                    "mitmproxy.net.dns.domain_names:unpack", "mitmproxy.net.dns.domain_names:unpack_from",
+                    "mitmproxy.net.dns.domain_names:_unpack_label_into", "mitmproxy.net.dns.domain_names:pack"]
     trusted_base = ["ruamel.yaml dump/load, ipaddress, the idna and utf-8 codecs, https_records pack/unpack as codec parameters with partial-inverse laws",
                     "mitmproxy.dns pack/unpack as the decoder of the re-encoded message (inputs it does not reproduce are skipped)",
                     "content view bodies (Python and Rust) are arbitrary functions"]
@@ -307,9 +314,36 @@ class Check(PropertyCheck):
                   b"\x00\x01\x3f" + b"a" * 63 + b"\x00", b"\x00\x01\x40" + b"a" * 64 + b"\x00", b"\x00\x01\x01\xe9\x00", b"\x00\x01\x03a.b\x00",
                   b"\x00\x01\xc0\x0c", b"\x00\x01\x00\x00\x01\x00", b"\x00\x01\x00\x00\x01\x00\x05ab"):
             yield {"kind": "https", "data_hex": hx(d)}
+        for d in (b"", b"\x00", b"\x01a", b"\x01a\x00", b"\x01a\x00\xff", b"\xc0\x0c", b"\x01\xe9\x00", b"\x03a.b\x00", b"\x40" + b"a" * 64 + b"\x00",
+                  b"\x3f" + b"a" * 63 + b"\x00", b"\x03WWW\x07Example\x03COM\x00", b"\x02a \x01\x1b\x00"):
+            yield {"kind": "name", "data_hex": hx(d)}
+        for d in (b"", b"\x00\x00\x00\x00", b"\xff\xff\xff\xff", b"\x01\x02\x03", b"\x01\x02\x03\x04\x05", b"\x0a\x64\xc8\x09"):
+            yield {"kind": "ip4", "data_hex": hx(d)}
+        for t in ("1.2.3.4", "01.2.3.4", "1.2.3", "1.2.3.4.5", "256.1.1.1", "1.2.3.4/8", "", "0x01020304 (invalid A data)", "1.2.3.\u0664", "1.2.3.4 ",
+                  "::1", "1..2.3", "1.2.3.-4", "0.0.0.0", "255.255.255.255", "1.2.3.0004", "\u0130.2.3.4", "1.2.3.4\n"):
+            yield {"kind": "ip4e", "s_hex": s2h(t)}
+        for d in (b"", b"\xff", b"h\xc3\xa9", b"\xed\xb2\x80", b"\xf0\x9f\x98\x80", b"\xc0\x80", b"\xe0\x80\x80", b"\xf4\x90\x80\x80", b"\xc3", b"a\xe2\x82"):
+            yield {"kind": "utf8", "data_hex": hx(d)}
         while True:
             r = rng.random()
-            if r < 0.08:
+            if r < 0.012:
+                if rng.chance(0.5): yield {"kind": "ip4", "data_hex": hx(rng.bytes_(rng.pick([4, 4, 4, 3, 5, 0, 16])))}
+                else:
+                    t = ".".join(rng.pick(["0", "1", "9", "10", "99", "100", "255", "256", "00", "", "1e", "+1", " 1", "１"]) for _ in range(rng.pick([4, 4, 4, 3, 5])))
+                    yield {"kind": "ip4e", "s_hex": s2h(t)}
+            elif r < 0.03:
+                k = rng.randrange(3)
+                if k == 0:
+                    b = rng.pick(self.TXTS) if rng.chance(0.5) else bytes(rng.pick([0x41, 0x7f, 0x80, 0xbf, 0xc2, 0xc3, 0xe0, 0xed, 0xa0, 0xf0, 0xf4, 0x90, 0xff, 0x20]) for _ in range(rng.randint(1, 8)))
+                    yield {"kind": "utf8", "data_hex": hx(b)}
+                elif k == 1:
+                    yield {"kind": "utf8e", "s_hex": s2h("".join(rng.pick(["a", "\xe9", "\u6f22", "\U0001f600", "\ud800", "\udc80", "\udcff", "\udfff", "\x00", "\x7f"]) for _ in range(rng.randint(0, 5))))}
+                else:
+                    d = bytearray(self._rdata(rng, 2))
+                    if rng.chance(0.3) and d: d[rng.randrange(len(d))] = rng.pick([0, 1, 3, 0x2e, 0x40, 0xc0, 0xff, 0x41])
+                    if rng.chance(0.1): d += b"\x00"
+                    yield {"kind": "name", "data_hex": hx(bytes(d))}
+            elif r < 0.08:
                 d = bytearray(self._https(rng))
                 if rng.chance(0.25) and d:
                     i = rng.randrange(len(d)); d[i] = rng.getrandbits(8)
@@ -495,6 +529,36 @@ class Check(PropertyCheck):
             return {"table": f"returns={len(rows)} raw={sum(1 for _, k in rows if k == 'raw')} types={len(types._STRINGS)} classes={len(classes._STRINGS)} "
                              f"ops={len(op_codes._STRINGS)} rcodes={len(response_codes._STRINGS)}",
                     "raw": [a for a, k in rows if k == "raw"]}
+        if kind == "utf8":
+            data = unhx(case["data_hex"])
+            try: t = data.decode("utf-8")
+            except UnicodeDecodeError: return {"tie": "none"}
+            try: back = hx(t.encode("utf-8"))
+            except UnicodeEncodeError: back = "raise"
+            return {"tie": f"{cps(t)} {back}"}
+        if kind == "ip4":
+            from ipaddress import IPv4Address
+            try: t = str(IPv4Address(unhx(case["data_hex"])))
+            except ValueError: return {"tie": "none"}
+            try: back = hx(IPv4Address(t).packed)
+            except ValueError: back = "raise"
+            return {"tie": f"{cps(t)} {back}"}
+        if kind == "ip4e":
+            from ipaddress import IPv4Address
+            try: return {"tie": hx(IPv4Address(h2s(case["s_hex"])).packed)}
+            except ValueError: return {"tie": "raise"}
+        if kind == "utf8e":
+            try: return {"tie": hx(h2s(case["s_hex"]).encode("utf-8"))}
+            except UnicodeEncodeError: return {"tie": "raise"}
+        if kind == "name":
+            from mitmproxy.net.dns import domain_names
+            data = unhx(case["data_hex"])
+            if b"xn--" in data: raise Skip()          # ACE labels: Python's idna codec, a parameter of the model
+            try: n = domain_names.unpack(data)
+            except Exception: return {"tie": "none"}
+            try: back = hx(domain_names.pack(n))
+            except Exception: back = "raise"
+            return {"tie": f"{cps(n)} {back}"}
         if kind == "https":
             from mitmproxy.net.dns import https_records
             data = unhx(case["data_hex"])
@@ -693,6 +757,8 @@ class Check(PropertyCheck):
         kind = case["kind"]
         if kind == "table":
             return []        # a raw return breaks `prettify_returns_escaped`; the failing rendering itself is what gets reported
+        if kind in ("utf8", "utf8e", "name", "ip4", "ip4e"):
+            return []        # tie only: transcriptions of the TXT and name codecs against the real functions
         if kind == "https":
             # record-level reading of "re-encoding ... yields ... the same ... records": rdata the HTTPS decoder accepts must be
             # restored by to_json -> from_json -> pack
@@ -743,6 +809,8 @@ class Check(PropertyCheck):
         if kind == "table": return ["table"]
         if kind == "sym": return [f"sym {nm} {case['n']}" for nm in ("type", "class", "op", "rcode")]
         if kind == "https": return [f"https {case['data_hex']}"]
+        if kind in ("utf8", "name", "ip4"): return [f"{kind} {case['data_hex']}"]
+        if kind in ("utf8e", "ip4e"): return [f"{kind} {cps(h2s(case['s_hex']))}"]
         if kind == "render":
             if obs.get("exc") or "parts" not in obs: return None
             p = obs["parts"]
@@ -762,6 +830,7 @@ class Check(PropertyCheck):
         if kind == "table": return [obs["table"]]
         if kind == "sym": return [f"{obs[nm][0]} {obs[nm][1]}" for nm in ("type", "class", "op", "rcode")]
         if kind == "https": return [obs["https"]]
+        if kind in ("utf8", "utf8e", "name", "ip4", "ip4e"): return [obs["tie"]]
         if kind == "render":
             p = obs["parts"]
             if p["missing"] or not (p["raised"] and not p["auto"]): return ["full " + obs["text"]]
@@ -776,13 +845,14 @@ class Check(PropertyCheck):
             return out
 
     def classify(self, case, obs):
-        if case["kind"] in ("table", "sym", "https"): return json.dumps(case, sort_keys=True)
+        if case["kind"] in ("table", "sym", "https", "utf8", "utf8e", "name", "ip4", "ip4e"): return json.dumps(case, sort_keys=True)
         if case["kind"] == "render": return json.dumps(case, sort_keys=True) if case["data_hex"] != "-" else None
         return json.dumps(case, sort_keys=True)
 
     def branches(self, case, obs):
         k = case["kind"]
         if k in ("table", "sym"): return [k]
+        if k in ("utf8", "utf8e", "name", "ip4", "ip4e"): return ["codec-tie:" + k, f"codec-tie:{k}:" + ("none" if obs["tie"] in ("none", "raise") else "ok")]
         if k == "https": return ["https", "https:" + obs["https"].split("=")[0].split(" ")[0]]
         if k == "render":
             out = ["render", "msg:" + case["msg"], "view:" + (case["view"] if case["view"] in self._views() else "<unknown>")]
